@@ -29,7 +29,7 @@ LINK_SINKS = {"symlink_to", "CreateJunction", "symlink", "hardlink_to", "link_to
 OS_SINKS = {"os.utime", "os.chmod", "os.mkdir", "os.makedirs", "os.symlink", "os.link", "os.remove", "os.unlink", "os.rename",
             "os.replace", "os.truncate", "os.rmdir", "os.chown", "os.lchown", "shutil.copy", "shutil.move", "shutil.rmtree",
             "_winapi.CreateJunction"}
-WRAPPERS = {"str", "pathlib.Path", "Path", "pathlib.PurePath", "os.fspath", "os.path.abspath", "os.path.normpath", "sorted", "list", "reversed", "tuple", "MemIO"}
+WRAPPERS = {"str", "pathlib.Path", "Path", "pathlib.PurePath", "os.fspath", "os.path.abspath", "os.path.normpath", "os.path.join", "sorted", "list", "reversed", "tuple", "MemIO"}
 PATH_ATTRS = {"parent", "as_posix", "joinpath", "absolute"}
 SANITISER = "get_sanitized_output_path"
 
